@@ -137,7 +137,8 @@ def bounds(tier, seed):
               'menus': {'full': 'none / first base / whole / last base / two touching / two nested (3,6,6 sets for size 1,2,3)',
                         'small': 'none / first base / whole / last base', 'tiny': 'none / whole / last base'},
               'set_combinations': 'every combination over the chromosomes, every size tuple',
-              'orders': ['genome', 'reversed (operations that do not need sorted input)'],
+              'orders': ['genome', 'reversed (operations that do not need sorted input)',
+                         'interleaved (round robin over the chromosomes, >= 3 entries on >= 2 chromosomes: merged, mask, pileup, sorted)'],
               'merge_distance': [0, 1, 2], 'extend_length': [1, 2, 3, 4], 'flank': [0, 1, 2], 'window_size': [1, 2, 3],
               'bin_size': [1, 2, 3],
               'plans': {'full': 'every operation x every argument', 'std': 'every operation, thinned arguments',
@@ -499,7 +500,7 @@ def plan(level, order, first_pattern, geometry_too):
     def add(op, arg=None):
         if OPS[op][0] == 'geometry' and not geometry_too:
             return
-        if OPS[op][4] and order != 'genome':
+        if OPS[op][4] and order != 'genome' and not (order == 'interleaved' and op == 'g.merged'):
             return
         if not op_is_stranded(op, arg) and not first_pattern:
             return
@@ -540,6 +541,11 @@ def plan(level, order, first_pattern, geometry_too):
             add('g.extend', 2), add('g.windows', ('flank', 1, True))
             add('g.array', ('distinct', True)), add('g.array', ('paired', False)), add('g.seq', ('fasta', True))
             add('g.binned', 2)
+    elif order == 'interleaved':
+        # rows not grouped by chromosome (each chromosome's own rows still start-sorted): merged() needs no more than that
+        for d in (0, 1, 2):
+            add('g.merged', d)
+        add('g.mask'), add('g.pileup'), add('g.mask_data'), add('g.sorted')
     else:
         add('g.mask'), add('g.sorted'), add('g.array', ('distinct', True)), add('geo.sort')
         if full or std:
@@ -1135,7 +1141,11 @@ def _run_ops(res, desc, deadline, scratch):
             return
         fx = ctx.fixture(names, sizes, mode)
         n_rows = sum(len(s) for s in sets)
-        for order in (('genome', 'reversed') if n_rows >= 2 else ('genome',)):
+        n_pop = sum(1 for s_ in sets if s_)
+        orders = ('genome', 'reversed') if n_rows >= 2 else ('genome',)
+        if n_rows >= 3 and n_pop >= 2:
+            orders += ('interleaved',)
+        for order in orders:
             for pi, pattern in enumerate(_patterns(tier, n_rows)):
                 run_case(ctx, res, fx, mode, sets, pattern, order, first_pattern=(pi == 0), level=desc['plan'])
 
